@@ -7,6 +7,7 @@
 
       {if e}…{elseif e}…{else}…{/if}      {foreach $x in e}…{ifempty}…{/foreach}
       {let $x: e /}                        {let $x}…{/let}
+      {switch e}{case e}…{default}…{/switch}   (no text between `{switch}` and the first case)
 
   (`e` a variable `$id` or an integer literal).  For every well-formed tree (`Blk`),
   `block_source_spec`:  `lexAll (srcOf b) false = .items (itemsOf b)` and
@@ -1142,6 +1143,8 @@ mutual
     | letv (x : Bytes) (e : SExp)
     /-- `{let $x}` body `{/let}` -/
     | letc (x : Bytes) (b : Blk)
+    /-- `{switch e}` cases `{/switch}` (no text between the cases) -/
+    | switch (e : SExp) (cs : Cases)
   /-- a block: commands, each preceded by a (possibly empty) text run, and a trailing text run -/
   inductive Blk where
     | done (t : Bytes)
@@ -1154,6 +1157,14 @@ mutual
     | els (b : Blk)
     /-- `{elseif e}` body, and so on -/
     | elif (e : SExp) (b : Blk) (r : IfTail)
+  /-- the cases of a `{switch}` -/
+  inductive Cases where
+    /-- `{/switch}` -/
+    | nil
+    /-- `{case v}` body, then the other cases -/
+    | case (v : SExp) (b : Blk) (r : Cases)
+    /-- `{default}` body, then the other cases -/
+    | dflt (b : Blk) (r : Cases)
 end
 
 def kIf : Bytes := [105, 102]
@@ -1163,6 +1174,9 @@ def kForeach : Bytes := [102, 111, 114, 101, 97, 99, 104]
 def kIfempty : Bytes := [105, 102, 101, 109, 112, 116, 121]
 def kLet : Bytes := [108, 101, 116]
 def kwIn : Bytes := [105, 110]
+def kSwitch : Bytes := [115, 119, 105, 116, 99, 104]
+def kCase : Bytes := [99, 97, 115, 101]
+def kDefault : Bytes := [100, 101, 102, 97, 117, 108, 116]
 
 def printTag (id : Bytes) : Tag := .open [.dollar id] false
 def ifTag (e : SExp) : Tag := .open [.word kIf, .sp, e.elem] false
@@ -1172,6 +1186,9 @@ def foreachTag (x : Bytes) (e : SExp) : Tag := .open [.word kForeach, .sp, .doll
 def ifemptyTag : Tag := .open [.word kIfempty] false
 def letvTag (x : Bytes) (e : SExp) : Tag := .open [.word kLet, .sp, .dollar x, .colon, .sp, e.elem, .sp] true
 def letcTag (x : Bytes) : Tag := .open [.word kLet, .sp, .dollar x] false
+def switchTag (e : SExp) : Tag := .open [.word kSwitch, .sp, e.elem] false
+def caseTag (v : SExp) : Tag := .open [.word kCase, .sp, v.elem] false
+def defaultTag : Tag := .open [.word kDefault] false
 
 def Blk.trail : Blk → Bytes
   | .done t => t
@@ -1183,6 +1200,12 @@ def IfTail.head : IfTail → Tag
   | .els _ => elseTag
   | .elif e _ _ => elseifTag e
 
+/-- the first tag of a list of cases: it closes the body before it -/
+def Cases.head : Cases → Tag
+  | .nil => .close kSwitch
+  | .case v _ _ => caseTag v
+  | .dflt _ _ => defaultTag
+
 mutual
   /-- the segments of a command preceded by the text `t` -/
   def segsCmd (t : Bytes) : Cmd → List Seg
@@ -1193,6 +1216,7 @@ mutual
       (t, foreachTag x e) :: (initBlk b ++ [(b.trail, ifemptyTag)] ++ (initBlk ie ++ [(ie.trail, .close kForeach)]))
     | .letv x e => [(t, letvTag x e)]
     | .letc x b => (t, letcTag x) :: (initBlk b ++ [(b.trail, .close kLet)])
+    | .switch e cs => (t, switchTag e) :: ([], cs.head) :: segsCases cs
   /-- the segments of a block without its trailing text -/
   def initBlk : Blk → List Seg
     | .done _ => []
@@ -1202,6 +1226,11 @@ mutual
     | .fi => []
     | .els b => initBlk b ++ [(b.trail, .close kIf)]
     | .elif _ b r => initBlk b ++ [(b.trail, r.head)] ++ segsTail r
+  /-- the segments behind the first tag of a list of cases -/
+  def segsCases : Cases → List Seg
+    | .nil => []
+    | .case _ b r => initBlk b ++ [(b.trail, r.head)] ++ segsCases r
+    | .dflt b r => initBlk b ++ [(b.trail, r.head)] ++ segsCases r
 end
 
 /-- a block closed by the tag `g` (`Tag.eof` at the top level) -/
@@ -1221,6 +1250,7 @@ mutual
     | .foreachE x e b ie => idOK x ∧ e.ok ∧ wfBlk b ∧ wfBlk ie
     | .letv x e => idOK x ∧ e.ok
     | .letc x b => idOK x ∧ wfBlk b
+    | .switch e cs => e.ok ∧ wfCases cs
   /-- well-formed: every text run is empty or `textOK`, identifiers and literals are well-formed -/
   def wfBlk : Blk → Prop
     | .done t => txtOK t
@@ -1229,6 +1259,10 @@ mutual
     | .fi => True
     | .els b => wfBlk b
     | .elif e b r => e.ok ∧ wfBlk b ∧ wfTail r
+  def wfCases : Cases → Prop
+    | .nil => True
+    | .case v b r => v.ok ∧ wfBlk b ∧ wfCases r
+    | .dflt b r => wfBlk b ∧ wfCases r
 end
 
 
@@ -1267,6 +1301,21 @@ theorem letvTag_ok {x : Bytes} {e : SExp} (hx : idOK x) (h : e.ok) : (letvTag x 
 
 theorem letcTag_ok {x : Bytes} (hx : idOK x) : (letcTag x).ok :=
   ⟨by simp, by decide, fun _ => d32, trivial, nd, hx, fun _ => d125, trivial⟩
+
+theorem switchTag_ok {e : SExp} (h : e.ok) : (switchTag e).ok :=
+  ⟨by simp, by decide, fun _ => d32, trivial, nd, (SExp.elem_ok h).1, fun _ => d125, trivial⟩
+
+theorem caseTag_ok {e : SExp} (h : e.ok) : (caseTag e).ok :=
+  ⟨by simp, by decide, fun _ => d32, trivial, nd, (SExp.elem_ok h).1, fun _ => d125, trivial⟩
+
+theorem defaultTag_ok : defaultTag.ok := by decide
+theorem closeSwitch_ok : (Tag.close kSwitch).ok := by decide
+
+theorem Cases.head_ok {cs : Cases} (h : wfCases cs) : cs.head.ok := by
+  cases cs with
+  | nil => exact closeSwitch_ok
+  | case v b r => exact caseTag_ok h.1
+  | dflt b r => exact defaultTag_ok
 
 theorem IfTail.head_ok {tl : IfTail} (h : wfTail tl) : tl.head.ok := by
   cases tl with
@@ -1319,6 +1368,14 @@ mutual
       rcases List.mem_cons.mp hs with rfl | hs
       · exact ⟨ht, letcTag_ok h.1⟩
       · exact segOK_close (initBlk_ok b h.2) h.2 closeLet_ok s hs
+    | t, .switch e cs, ht, h => by
+      simp only [segsCmd]
+      intro s hs
+      rcases List.mem_cons.mp hs with rfl | hs
+      · exact ⟨ht, switchTag_ok h.1⟩
+      · rcases List.mem_cons.mp hs with rfl | hs
+        · exact ⟨Or.inl rfl, Cases.head_ok h.2⟩
+        · exact segsCases_ok cs h.2 s hs
   theorem initBlk_ok : ∀ (b : Blk), wfBlk b → ∀ s ∈ initBlk b, SegOK s
     | .done _, _ => by intro s hs; simp [initBlk] at hs
     | .cons t c r, h => by
@@ -1332,6 +1389,14 @@ mutual
     | .elif e b r, h => by
       simp only [segsTail]
       exact segOK_append (segOK_close (initBlk_ok b h.2.1) h.2.1 (IfTail.head_ok h.2.2)) (segsTail_ok r h.2.2)
+  theorem segsCases_ok : ∀ (cs : Cases), wfCases cs → ∀ s ∈ segsCases cs, SegOK s
+    | .nil, _ => by intro s hs; simp [segsCases] at hs
+    | .case v b r, h => by
+      simp only [segsCases]
+      exact segOK_append (segOK_close (initBlk_ok b h.2.1) h.2.1 (Cases.head_ok h.2.2)) (segsCases_ok r h.2.2)
+    | .dflt b r, h => by
+      simp only [segsCases]
+      exact segOK_append (segOK_close (initBlk_ok b h.1) h.1 (Cases.head_ok h.2)) (segsCases_ok r h.2)
 end
 
 theorem itemsSegs_append : ∀ (a b : List Seg) (q : Nat),
@@ -1622,6 +1687,9 @@ mutual
       .letContent (q + t.length + 4) x
         (.list (headPos (itemsSegs (q + t.length + (letcTag x).src.length) (closeBlk b (.close kLet))))
           (nodesBlk (q + t.length + (letcTag x).src.length) b))
+    | .switch e cs =>
+      .switch (q + t.length + 7) (exprOf (q + t.length + 8 + e.elem.src.length) e)
+        (caseNodes (q + t.length + (switchTag e).src.length) cs)
   /-- the nodes of a block that begins at `q` -/
   def nodesBlk (q : Nat) : Blk → NodeList
     | .done t => textNL t (q + t.length)
@@ -1639,6 +1707,19 @@ mutual
         (.list (headPos (itemsSegs (qt + (elseifTag e).src.length) (closeBlk b r.head)))
           (nodesBlk (qt + (elseifTag e).src.length) b)))
         (condsTail pos (qt + (elseifTag e).src.length + lenBlk b) r)
+  /-- the case nodes; `qc` = where the first tag of the cases begins -/
+  def caseNodes (qc : Nat) : Cases → NodeList
+    | .nil => .nil
+    | .case v b r =>
+      .cons (.switchCase (qc + 5) [exprOf (qc + 6 + v.elem.src.length) v]
+        (.list (headPos (itemsSegs (qc + (caseTag v).src.length) (closeBlk b r.head)))
+          (nodesBlk (qc + (caseTag v).src.length) b)))
+        (caseNodes (qc + (caseTag v).src.length + lenBlk b) r)
+    | .dflt b r =>
+      .cons (.switchCase (qc + 8) []
+        (.list (headPos (itemsSegs (qc + defaultTag.src.length) (closeBlk b r.head)))
+          (nodesBlk (qc + defaultTag.src.length) b)))
+        (caseNodes (qc + defaultTag.src.length + lenBlk b) r)
 end
 
 /-- the nodes `parse.SoyFile` returns for the template body `b` -/
@@ -1650,7 +1731,8 @@ def nodesOf (b : Blk) : List Node := (nodesBlk 0 b).toList
 /-- the end-token sets of the family contain none of the tokens a piece begins with -/
 def untlOK (untl : List ItemType) : Prop :=
   untl.contains .tText = false ∧ untl.contains .tLeftDelim = false ∧ untl.contains .tDollarIdent = false ∧
-  untl.contains .tIf = false ∧ untl.contains .tForeach = false ∧ untl.contains .tLet = false
+  untl.contains .tIf = false ∧ untl.contains .tForeach = false ∧ untl.contains .tLet = false ∧
+  untl.contains .tSwitch = false
 
 instance (untl : List ItemType) : Decidable (untlOK untl) := by unfold untlOK; infer_instance
 
@@ -1931,7 +2013,7 @@ theorem blk_done (ef : Nat) (t : Bytes) : BlkSpec pf ef (.done t) := by
 /-- the first tokens of a command: `{` and a token that is in no end-token set -/
 theorem segsCmd_items (q : Nat) (t : Bytes) (c : Cmd) :
     ∃ k s0, itemsSegs q (segsCmd t c) = textItem t (q + t.length) ++ ⟨.tLeftDelim, q + t.length + 1, [123]⟩ :: k :: s0 ∧
-      (k.typ = .tDollarIdent ∨ k.typ = .tIf ∨ k.typ = .tForeach ∨ k.typ = .tLet) := by
+      (k.typ = .tDollarIdent ∨ k.typ = .tIf ∨ k.typ = .tForeach ∨ k.typ = .tLet ∨ k.typ = .tSwitch) := by
   cases c with
   | print id =>
     have e : itemsSegs q (segsCmd t (.print id)) = textItem t (q + t.length) ++
@@ -1962,13 +2044,19 @@ theorem segsCmd_items (q : Nat) (t : Bytes) (c : Cmd) :
         ((letvTag x e).items (q + t.length) ++ itemsSegs (q + t.length + (letvTag x e).src.length) ([])) := by
       simp only [segsCmd, itemsSegs, List.append_assoc]
     rw [e]
-    exact ⟨_, _, rfl, Or.inr (Or.inr (Or.inr (by decide : wordType kLet = .tLet)))⟩
+    exact ⟨_, _, rfl, Or.inr (Or.inr (Or.inr (Or.inl (by decide : wordType kLet = .tLet))))⟩
   | letc x b =>
     have e : itemsSegs q (segsCmd t (.letc x b)) = textItem t (q + t.length) ++
         ((letcTag x).items (q + t.length) ++ itemsSegs (q + t.length + (letcTag x).src.length) (initBlk b ++ [(b.trail, .close kLet)])) := by
       simp only [segsCmd, itemsSegs, List.append_assoc]
     rw [e]
-    exact ⟨_, _, rfl, Or.inr (Or.inr (Or.inr (by decide : wordType kLet = .tLet)))⟩
+    exact ⟨_, _, rfl, Or.inr (Or.inr (Or.inr (Or.inl (by decide : wordType kLet = .tLet))))⟩
+  | switch e cs =>
+    have e' : itemsSegs q (segsCmd t (.switch e cs)) = textItem t (q + t.length) ++
+        ((switchTag e).items (q + t.length) ++ itemsSegs (q + t.length + (switchTag e).src.length) (([], cs.head) :: segsCases cs)) := by
+      simp only [segsCmd, itemsSegs, List.append_assoc]
+    rw [e']
+    exact ⟨_, _, rfl, Or.inr (Or.inr (Or.inr (Or.inr (by decide : wordType kSwitch = .tSwitch))))⟩
 
 theorem blk_cons (ef : Nat) (t : Bytes) (c : Cmd) (r : Blk) (hc : CmdSpec pf ef c) (hr : BlkSpec pf ef r) :
     BlkSpec pf ef (.cons t c r) := by
@@ -1978,11 +2066,12 @@ theorem blk_cons (ef : Nat) (t : Bytes) (c : Cmd) (r : Blk) (hc : CmdSpec pf ef 
     simp only [closeBlk, initBlk, Blk.trail, List.append_assoc, itemsSegs_append, lenS]
   obtain ⟨k, s0, hcs, hk⟩ := segsCmd_items q t c
   have hku : untl.contains k.typ = false := by
-    rcases hk with h | h | h | h <;> rw [h]
+    rcases hk with h | h | h | h | h <;> rw [h]
     · exact hu.2.2.1
     · exact hu.2.2.2.1
     · exact hu.2.2.2.2.1
-    · exact hu.2.2.2.2.2
+    · exact hu.2.2.2.2.2.1
+    · exact hu.2.2.2.2.2.2
   rw [hcl] at hs hf ⊢
   have hlc : (itemsSegs q (segsCmd t c)).length = (textItem t (q + t.length)).length + 2 + s0.length := by
     rw [hcs]; simp; omega
@@ -2127,6 +2216,41 @@ theorem letcTag_items (x : Bytes) (Q : Nat) :
     (letcTag x).src.length = 7 + x.length := by
   unfold letcTag
   tag_unfold
+  arith_items
+
+theorem len_kSwitch : kSwitch.length = 6 := rfl
+theorem len_kCase : kCase.length = 4 := rfl
+theorem len_kDefault : kDefault.length = 7 := rfl
+
+theorem switchTag_items (e : SExp) (Q : Nat) :
+    (switchTag e).items Q = [⟨.tLeftDelim, Q + 1, [123]⟩, ⟨.tSwitch, Q + 7, kSwitch⟩, exprItem (Q + 8 + e.elem.src.length) e,
+      ⟨.tRightDelim, Q + 9 + e.elem.src.length, [125]⟩] ∧ (switchTag e).src.length = 9 + e.elem.src.length := by
+  unfold switchTag
+  tag_unfold
+  simp only [len_kSwitch]
+  arith_items
+
+theorem caseTag_items (e : SExp) (Q : Nat) :
+    (caseTag e).items Q = [⟨.tLeftDelim, Q + 1, [123]⟩, ⟨.tCase, Q + 5, kCase⟩, exprItem (Q + 6 + e.elem.src.length) e,
+      ⟨.tRightDelim, Q + 7 + e.elem.src.length, [125]⟩] ∧ (caseTag e).src.length = 7 + e.elem.src.length := by
+  unfold caseTag
+  tag_unfold
+  simp only [len_kCase]
+  arith_items
+
+theorem defaultTag_items (Q : Nat) :
+    defaultTag.items Q = [⟨.tLeftDelim, Q + 1, [123]⟩, ⟨.tDefault, Q + 8, kDefault⟩, ⟨.tRightDelim, Q + 9, [125]⟩] ∧
+      defaultTag.src.length = 9 := by
+  unfold defaultTag
+  tag_unfold
+  simp only [len_kDefault]
+  arith_items
+
+theorem closeSwitch_items (Q : Nat) :
+    (Tag.close kSwitch).items Q = [⟨.tLeftDelim, Q + 1, [123]⟩, ⟨.tSwitchEnd, Q + 8, 47 :: kSwitch⟩, ⟨.tRightDelim, Q + 9, [125]⟩] ∧
+      (Tag.close kSwitch).src.length = 9 := by
+  tag_unfold
+  simp only [len_kSwitch]
   arith_items
 
 /-! ### the commands -/
@@ -2600,6 +2724,257 @@ theorem cmd_if (ef : Nat) (e : SExp) (b : Blk) (tl : IfTail) (he : e.ok) (hb : B
   rfl
 
 
+
+/-- `parseSwitch`'s loop on the tokens of the cases `cs`, the `{` of their first tag already read -/
+def CasesSpec (ef : Nat) (cs : Cases) : Prop :=
+  ∀ (qc fuel pos : Nat) (value : Expr) (cases : NodeList) (st : FState) (rest : List Item),
+    st.inmsg = false → st.p.peekCount ≤ 1 →
+    stream st.p = (cs.head.items qc).drop 1 ++ (itemsSegs (qc + cs.head.src.length) (segsCases cs) ++ rest) →
+    4 * ((cs.head.items qc).length + (itemsSegs (qc + cs.head.src.length) (segsCases cs)).length) + 16 ≤ fuel →
+    ∃ st', switchLoop pf (ef + 4) fuel pos value .tSwitchEnd cases st =
+        .ok (.switch pos value (cases.append (caseNodes qc cs)), st') ∧
+      stream st'.p = rest ∧ st'.p.peekCount ≤ 2 ∧ Fr st st'
+
+theorem switchLoop_succ (ef fuel pos : Nat) (value : Expr) (endT : ItemType) (cases : NodeList) :
+    switchLoop pf ef (fuel + 1) pos value endT cases = (do
+      let tok ← FileParser.next
+      if tok.typ == .tLeftDelim then switchLoop pf ef fuel pos value endT cases
+      else if tok.typ == .tText then
+        if allSpace tok.val then switchLoop pf ef fuel pos value endT cases else FileParser.unexpected tok
+      else if tok.typ == .tCase || tok.typ == .tDefault then do
+        let c ← caseLoop pf ef fuel tok []
+        switchLoop pf ef fuel pos value endT (cases.append (.cons c .nil))
+      else if tok.typ == endT then do
+        let _ ← FileParser.expect .tRightDelim
+        pure (.switch pos value cases)
+      else if tok.typ == .tComment then switchLoop pf ef fuel pos value endT cases
+      else FileParser.unexpected tok) := by
+  rw [switchLoop]
+
+theorem cases_nil (ef : Nat) : CasesSpec pf ef .nil := by
+  intro qc fuel pos value cases st rest hin hpc hs hf
+  simp only [Cases.head] at hs hf
+  rw [(closeSwitch_items qc).1] at hs hf
+  simp only [List.drop, List.cons_append, List.nil_append, segsCases, itemsSegs, List.length_cons, List.length_nil] at hs hf
+  obtain ⟨f, rfl⟩ : ∃ f, fuel = f + 1 := ⟨fuel - 1, by omega⟩
+  obtain ⟨st1, hn1, hs1, ht1, hp1, hfr1⟩ := fnext_stream' (st := st) (by omega) hs
+  obtain ⟨st2, he2, hs2, ht2, hp2, hfr2⟩ := fexpect_stream' (st := st1) (t := .tRightDelim) (by omega) hs1 rfl
+  refine ⟨st2, ?_, hs2, by omega, hfr1.trans hfr2⟩
+  rw [switchLoop_succ, fbind_run, hn1]
+  simp only [show (ItemType.tSwitchEnd == ItemType.tLeftDelim) = false by decide,
+    show (ItemType.tSwitchEnd == ItemType.tText) = false by decide,
+    show (ItemType.tSwitchEnd == ItemType.tCase || ItemType.tSwitchEnd == ItemType.tDefault) = false by decide,
+    beq_self_eq_true, Bool.false_eq_true, if_false, if_true]
+  rw [fbind_run, he2]
+  simp only [caseNodes, nl_append_nil]
+  rfl
+
+theorem stops_cases (r : Cases) : Stops [.tCase, .tDefault, .tSwitchEnd, .tPluralEnd] r.head ∧ r.head ≠ .eof := by
+  cases r with
+  | nil => exact ⟨by show List.contains _ (closeType kSwitch) = true; decide, by simp [Cases.head]⟩
+  | case _ _ _ => exact ⟨by show List.contains _ (wordType kCase) = true; decide, by simp [Cases.head, caseTag]⟩
+  | dflt _ _ => exact ⟨by show List.contains _ (wordType kDefault) = true; decide, by simp [Cases.head, defaultTag]⟩
+
+theorem head_items_two (r : Cases) (q : Nat) :
+    ∃ ld k more, r.head.items q = ld :: k :: more := by
+  cases r with
+  | nil => exact ⟨_, _, _, (closeSwitch_items q).1⟩
+  | case v _ _ => exact ⟨_, _, _, (caseTag_items v q).1⟩
+  | dflt _ _ => exact ⟨_, _, _, (defaultTag_items q).1⟩
+
+/-- what `caseLoop` and the next round of `switchLoop` need behind a case body -/
+theorem after_body (ef : Nat) (b : Blk) (r : Cases) (hb : BlkSpec pf ef b) (hrs : CasesSpec pf ef r) (qb f pos : Nat)
+    (value : Expr) (st : FState) (rest : List Item) (hin : st.inmsg = false)
+    (hpc : st.p.peekCount ≤ 2)
+    (hs : stream st.p = itemsSegs qb (closeBlk b r.head) ++ (itemsSegs (qb + lenBlk b + r.head.src.length) (segsCases r) ++ rest))
+    (hf : 4 * ((itemsSegs qb (closeBlk b r.head)).length +
+      (itemsSegs (qb + lenBlk b + r.head.src.length) (segsCases r)).length) + 17 ≤ f) :
+    ∃ st1 st2, itemListLoop pf (ef + 4) f [.tCase, .tDefault, .tSwitchEnd, .tPluralEnd] none .nil st =
+        .ok (.list (headPos (itemsSegs qb (closeBlk b r.head))) (nodesBlk qb b), st1) ∧
+      FileParser.backup st1 = .ok ((), st2) ∧
+      (∀ cases', ∃ st3, switchLoop pf (ef + 4) (f + 1) pos value .tSwitchEnd cases' st2 =
+          .ok (.switch pos value (cases'.append (caseNodes (qb + lenBlk b) r)), st3) ∧
+        stream st3.p = rest ∧ st3.p.peekCount ≤ 2 ∧ Fr st st3) := by
+  obtain ⟨hstop, hne⟩ := stops_cases r
+  obtain ⟨st1, hl1, hs1, ht1, hfr1⟩ := hb r.head [.tCase, .tDefault, .tSwitchEnd, .tPluralEnd] qb f none .nil st
+    (itemsSegs (qb + lenBlk b + r.head.src.length) (segsCases r) ++ rest) hstop (by decide) hin hpc hs (by omega)
+  obtain ⟨st2, hb2, hs2, hp2, hfr2⟩ := fbackup_stream' (st := st1) (by have := (ht1 hne).2; omega)
+  obtain ⟨ld, k, more, hit⟩ := head_items_two r (qb + lenBlk b)
+  have hs2' : stream st2.p = (r.head.items (qb + lenBlk b)).drop 1 ++
+      (itemsSegs (qb + lenBlk b + r.head.src.length) (segsCases r) ++ rest) := by
+    rw [hs2, (ht1 hne).1, hs1, hit]; rfl
+  refine ⟨st1, st2, ?_, hb2, ?_⟩
+  · rw [hl1]; simp only [Option.getD_none, NodeList.append]
+  · intro cases'
+    have hcl := closeBlk_len qb b r.head
+    obtain ⟨st3, hl3, hs3, hp3, hfr3⟩ := hrs (qb + lenBlk b) (f + 1) pos value cases' st2 rest
+      (by rw [(hfr1.trans hfr2).2.2]; exact hin) (by have := (ht1 hne).2; omega) hs2' (by omega)
+    exact ⟨st3, hl3, hs3, hp3, (hfr1.trans hfr2).trans hfr3⟩
+
+theorem caseLoop_succ (ef fuel : Nat) (token : Item) (values : List Expr) :
+    caseLoop pf ef (fuel + 1) token values = (do
+      let values ← (if token.typ != .tDefault then do
+          let e ← parseExpr0 pf ef
+          pure (values ++ [e])
+        else pure values : FP (List Expr))
+      let tok ← FileParser.next
+      if tok.typ == .tComma then caseLoop pf ef fuel token values
+      else if tok.typ == .tRightDelim then do
+        let body ← itemListLoop pf ef fuel [.tCase, .tDefault, .tSwitchEnd, .tPluralEnd] none .nil
+        FileParser.backup
+        pure (.switchCase token.pos values body)
+      else FileParser.unexpected tok) := by
+  rw [caseLoop]
+
+theorem cases_case (ef : Nat) (v : SExp) (b : Blk) (r : Cases) (hv : v.ok) (hb : BlkSpec pf ef b) (hrs : CasesSpec pf ef r) :
+    CasesSpec pf ef (.case v b r) := by
+  intro qc fuel pos value cases st rest hin hpc hs hf
+  simp only [Cases.head] at hs hf
+  rw [(caseTag_items v qc).1] at hs hf
+  simp only [List.drop, List.cons_append, List.nil_append, segsCases, (caseTag_items v qc).2, List.length_cons,
+    List.length_nil] at hs hf
+  have hsplit : itemsSegs (qc + (7 + v.elem.src.length)) (initBlk b ++ [(b.trail, r.head)] ++ segsCases r) =
+      itemsSegs (qc + (7 + v.elem.src.length)) (closeBlk b r.head) ++
+        itemsSegs (qc + (7 + v.elem.src.length) + lenBlk b + r.head.src.length) (segsCases r) := by
+    simp only [closeBlk, itemsSegs_append, lenBlk, lenS, srcSegs_append, srcSegs, List.length_append, List.append_nil,
+      Nat.add_assoc]
+  rw [hsplit] at hs hf
+  simp only [List.length_append] at hf
+  obtain ⟨f, rfl⟩ : ∃ f, fuel = f + 2 := ⟨fuel - 2, by omega⟩
+  obtain ⟨st1, hn1, hs1, ht1, hp1, hfr1⟩ := fnext_stream' (st := st) (by omega) hs
+  obtain ⟨st2, hx2, hs2, hp2, hfr2⟩ := parseExpr0_simple pf ef v _ _ _ st1 (by omega) hs1 hv (Or.inl rfl)
+  obtain ⟨st3, hn3, hs3, ht3, hp3, hfr3⟩ := fnext_stream' (st := st2) (by omega) hs2
+  have hfr03 := (hfr1.trans hfr2).trans hfr3
+  obtain ⟨st4, st5, hl4, hb5, hrest⟩ := after_body pf ef b r hb hrs (qc + (7 + v.elem.src.length)) f pos value
+    st3 rest (by rw [hfr03.2.2]; exact hin) (by omega) (by rw [hs3]; simp) (by omega)
+  obtain ⟨st6, hl6, hs6, hp6, hfr6⟩ := hrest (cases.append (.cons (.switchCase (qc + 5) [exprOf (qc + 6 + v.elem.src.length) v]
+    (.list (headPos (itemsSegs (qc + (7 + v.elem.src.length)) (closeBlk b r.head))) (nodesBlk (qc + (7 + v.elem.src.length)) b))) .nil))
+  refine ⟨st6, ?_, hs6, hp6, hfr03.trans hfr6⟩
+  show switchLoop pf (ef + 4) ((f + 1) + 1) pos value .tSwitchEnd cases st = _
+  rw [switchLoop_succ, fbind_run, hn1]
+  simp only [show (ItemType.tCase == ItemType.tLeftDelim) = false by decide,
+    show (ItemType.tCase == ItemType.tText) = false by decide, beq_self_eq_true, Bool.true_or, Bool.false_eq_true,
+    if_false, if_true]
+  rw [fbind_run]
+  have hcl : caseLoop pf (ef + 4) (f + 1) ⟨.tCase, qc + 5, kCase⟩ [] st1 =
+      .ok (.switchCase (qc + 5) [exprOf (qc + 6 + v.elem.src.length) v]
+        (.list (headPos (itemsSegs (qc + (7 + v.elem.src.length)) (closeBlk b r.head))) (nodesBlk (qc + (7 + v.elem.src.length)) b)), st5) := by
+    rw [caseLoop_succ]
+    simp only [show (ItemType.tCase != ItemType.tDefault) = true by decide, if_true]
+    rw [fbind_run, fbind_run, hx2]
+    simp only
+    rw [fpure_run]
+    simp only
+    rw [fbind_run, hn3]
+    simp only [show (ItemType.tRightDelim == ItemType.tComma) = false by decide, beq_self_eq_true, Bool.false_eq_true,
+      if_false, if_true]
+    rw [fbind_run, hl4]
+    simp only
+    rw [fbind_run, hb5]
+    rfl
+  rw [hcl]
+  simp only
+  rw [hl6]
+  simp only [caseNodes, nl_append_assoc, NodeList.append, (caseTag_items v qc).2]
+
+theorem cases_dflt (ef : Nat) (b : Blk) (r : Cases) (hb : BlkSpec pf ef b) (hrs : CasesSpec pf ef r) :
+    CasesSpec pf ef (.dflt b r) := by
+  intro qc fuel pos value cases st rest hin hpc hs hf
+  simp only [Cases.head] at hs hf
+  rw [(defaultTag_items qc).1] at hs hf
+  simp only [List.drop, List.cons_append, List.nil_append, segsCases, (defaultTag_items qc).2, List.length_cons,
+    List.length_nil] at hs hf
+  have hsplit : itemsSegs (qc + 9) (initBlk b ++ [(b.trail, r.head)] ++ segsCases r) =
+      itemsSegs (qc + 9) (closeBlk b r.head) ++ itemsSegs (qc + 9 + lenBlk b + r.head.src.length) (segsCases r) := by
+    simp only [closeBlk, itemsSegs_append, lenBlk, lenS, srcSegs_append, srcSegs, List.length_append, List.append_nil,
+      Nat.add_assoc]
+  rw [hsplit] at hs hf
+  simp only [List.length_append] at hf
+  obtain ⟨f, rfl⟩ : ∃ f, fuel = f + 2 := ⟨fuel - 2, by omega⟩
+  obtain ⟨st1, hn1, hs1, ht1, hp1, hfr1⟩ := fnext_stream' (st := st) (by omega) hs
+  obtain ⟨st3, hn3, hs3, ht3, hp3, hfr3⟩ := fnext_stream' (st := st1) (by omega) hs1
+  have hfr03 := hfr1.trans hfr3
+  obtain ⟨st4, st5, hl4, hb5, hrest⟩ := after_body pf ef b r hb hrs (qc + 9) f pos value
+    st3 rest (by rw [hfr03.2.2]; exact hin) (by omega) (by rw [hs3]; simp) (by omega)
+  obtain ⟨st6, hl6, hs6, hp6, hfr6⟩ := hrest (cases.append (.cons (.switchCase (qc + 8) []
+    (.list (headPos (itemsSegs (qc + 9) (closeBlk b r.head))) (nodesBlk (qc + 9) b))) .nil))
+  refine ⟨st6, ?_, hs6, hp6, hfr03.trans hfr6⟩
+  show switchLoop pf (ef + 4) ((f + 1) + 1) pos value .tSwitchEnd cases st = _
+  rw [switchLoop_succ, fbind_run, hn1]
+  simp only [show (ItemType.tDefault == ItemType.tLeftDelim) = false by decide,
+    show (ItemType.tDefault == ItemType.tText) = false by decide, beq_self_eq_true, Bool.or_true, Bool.false_eq_true,
+    if_false, if_true]
+  rw [fbind_run]
+  have hcl : caseLoop pf (ef + 4) (f + 1) ⟨.tDefault, qc + 8, kDefault⟩ [] st1 =
+      .ok (.switchCase (qc + 8) []
+        (.list (headPos (itemsSegs (qc + 9) (closeBlk b r.head))) (nodesBlk (qc + 9) b)), st5) := by
+    rw [caseLoop_succ]
+    simp only [show (ItemType.tDefault != ItemType.tDefault) = false by decide, Bool.false_eq_true, if_false]
+    rw [fbind_run, fpure_run]
+    simp only
+    rw [fbind_run, hn3]
+    simp only [show (ItemType.tRightDelim == ItemType.tComma) = false by decide, beq_self_eq_true, Bool.false_eq_true,
+      if_false, if_true]
+    rw [fbind_run, hl4]
+    simp only
+    rw [fbind_run, hb5]
+    rfl
+  rw [hcl]
+  simp only
+  rw [hl6]
+  simp only [caseNodes, nl_append_assoc, NodeList.append, (defaultTag_items qc).2]
+
+theorem cmd_switch (ef : Nat) (e : SExp) (cs : Cases) (he : e.ok) (hcs : CasesSpec pf ef cs) : CmdSpec pf ef (.switch e cs) := by
+  intro q t fuel st rest hin hpc hs hf
+  have hit : itemsSegs q (segsCmd t (.switch e cs)) = textItem t (q + t.length) ++ ((switchTag e).items (q + t.length) ++
+      (cs.head.items (q + t.length + (switchTag e).src.length) ++
+        itemsSegs (q + t.length + (switchTag e).src.length + cs.head.src.length) (segsCases cs))) := by
+    simp only [segsCmd, itemsSegs, List.append_assoc, textItem, List.length_nil, Nat.lt_irrefl, false_and, if_false,
+      List.nil_append, Nat.add_zero]
+  rw [hit, (switchTag_items e (q + t.length)).1] at hs hf
+  simp only [List.cons_append, List.nil_append] at hs hf
+  rw [drop_len_succ] at hs
+  simp only [List.length_append, List.length_cons] at hf
+  obtain ⟨ld, k, more, hhd⟩ := head_items_two cs (q + t.length + (switchTag e).src.length)
+  have hld : ld = ⟨.tLeftDelim, q + t.length + (switchTag e).src.length + 1, [123]⟩ := by
+    cases cs with
+    | nil => have := (closeSwitch_items (q + t.length + (switchTag e).src.length)).1; simp only [Cases.head] at hhd; rw [this] at hhd; simp at hhd; exact hhd.1.symm
+    | case v _ _ => have := (caseTag_items v (q + t.length + (switchTag e).src.length)).1; simp only [Cases.head] at hhd; rw [this] at hhd; simp at hhd; exact hhd.1.symm
+    | dflt _ _ => have := (defaultTag_items (q + t.length + (switchTag e).src.length)).1; simp only [Cases.head] at hhd; rw [this] at hhd; simp at hhd; exact hhd.1.symm
+  obtain ⟨f, rfl⟩ : ∃ f, fuel = f + 4 := ⟨fuel - 4, by omega⟩
+  obtain ⟨st1, hn1, hs1, ht1, hp1, hfr1⟩ := fnext_stream' hpc hs
+  obtain ⟨st2, hx2, hs2, hp2, hfr2⟩ := parseExpr0_simple pf ef e _ _ _ st1 (by omega) hs1 he (Or.inl rfl)
+  obtain ⟨st3, he3, hs3, ht3, hp3, hfr3⟩ := fexpect_stream' (st := st2) (t := .tRightDelim) (by omega) hs2 rfl
+  rw [hhd] at hs3
+  obtain ⟨st4, hn4, hs4, ht4, hp4, hfr4⟩ := fnext_stream' (st := st3) (by omega) (by simpa using hs3)
+  have hfr04 := ((hfr1.trans hfr2).trans hfr3).trans hfr4
+  obtain ⟨st5, hl5, hs5, hp5, hfr5⟩ := hcs (q + t.length + (switchTag e).src.length) (f + 1) (q + t.length + 7)
+    (exprOf (q + t.length + 8 + e.elem.src.length) e) .nil st4 rest (by rw [hfr04.2.2]; exact hin) (by omega)
+    (by rw [hs4, hhd]; simp) (by omega)
+  refine ⟨st5, ?_, hs5, hp5, hfr04.trans hfr5⟩
+  show beginTag pf (ef + 4) ((f + 3) + 1) st = _
+  unfold beginTag
+  rw [fbind_run, hn1]
+  simp only
+  rw [fbind_run, notmsg_run _ _ (by rw [hfr1.2.2]; exact hin)]
+  simp only
+  rw [fbind_run]
+  have hps : parseSwitch pf (ef + 4) (f + 3) ⟨.tSwitch, q + t.length + 7, kSwitch⟩ .tSwitchEnd st1 =
+      .ok (nodeCmd q t (.switch e cs), st5) := by
+    show parseSwitch pf (ef + 4) ((f + 2) + 1) _ _ st1 = _
+    unfold parseSwitch
+    rw [fbind_run, hx2]
+    simp only
+    rw [fbind_run, he3]
+    simp only
+    show switchLoop pf (ef + 4) ((f + 1) + 1) _ _ _ _ st3 = _
+    rw [switchLoop_succ, fbind_run, hn4]
+    simp only [hld, beq_self_eq_true, if_true]
+    rw [hl5]
+    simp only [nodeCmd, NodeList.append]
+  rw [hps]
+  rfl
+
 /-! ## the mutual induction over the tree -/
 
 mutual
@@ -2610,6 +2985,7 @@ mutual
     | .foreachE x e b ie, h => cmd_foreachE pf ef x e b ie h.2.1 (spec_blk ef b h.2.2.1) (spec_blk ef ie h.2.2.2)
     | .letv x e, h => cmd_letv pf ef x e h.2
     | .letc x b, h => cmd_letc pf ef x b (spec_blk ef b h.2)
+    | .switch e cs, h => cmd_switch pf ef e cs h.1 (spec_cases ef cs h.2)
   theorem spec_blk (ef : Nat) : ∀ (b : Blk), wfBlk b → BlkSpec pf ef b
     | .done t, _ => blk_done pf ef t
     | .cons t c r, h => blk_cons pf ef t c r (spec_cmd ef c h.2.1) (spec_blk ef r h.2.2)
@@ -2617,6 +2993,10 @@ mutual
     | .fi, _ => tail_fi pf ef
     | .els b, h => tail_els pf ef b (spec_blk ef b h)
     | .elif e b r, h => tail_elif pf ef e b r h.1 h.2.2 (spec_blk ef b h.2.1) (spec_tail ef r h.2.2)
+  theorem spec_cases (ef : Nat) : ∀ (cs : Cases), wfCases cs → CasesSpec pf ef cs
+    | .nil, _ => cases_nil pf ef
+    | .case v b r, h => cases_case pf ef v b r h.1 (spec_blk ef b h.2.1) (spec_cases ef r h.2.2)
+    | .dflt b r, h => cases_dflt pf ef b r (spec_blk ef b h.1) (spec_cases ef r h.2)
 end
 
 end parser
@@ -2720,5 +3100,58 @@ theorem exTree_spec (pf : Bytes → Option UInt64) :
   have := (block_source_spec pf exTree exTree_wf).2
   rw [exTree_src, exTree_nodes] at this
   exact this
+
+
+/-- `p {switch $a}{case 1}one{$x}{case $b} {default}{if 0}z{/if}⏎{/switch} q` -/
+def exSwitch : Blk :=
+  .cons [112, 32] (.switch (.var [97])
+    (.case (.int [49]) (.cons [111, 110, 101] (.print [120]) (.done []))
+    (.case (.var [98]) (.done [32])
+    (.dflt (.cons [] (.ifc (.int [48]) (.done [122]) .fi) (.done [10])) .nil))))
+  (.done [32, 113])
+
+theorem exSwitch_wf : wfBlk exSwitch := by
+  simp only [exSwitch, wfBlk, wfCmd, wfTail, wfCases, SExp.ok]
+  decide
+
+theorem exSwitch_src : srcOf exSwitch =
+    [112, 32, 123, 115, 119, 105, 116, 99, 104, 32, 36, 97, 125, 123, 99, 97, 115, 101, 32, 49, 125, 111, 110, 101, 123, 36,
+     120, 125, 123, 99, 97, 115, 101, 32, 36, 98, 125, 32, 123, 100, 101, 102, 97, 117, 108, 116, 125, 123, 105, 102, 32,
+     48, 125, 122, 123, 47, 105, 102, 125, 10, 123, 47, 115, 119, 105, 116, 99, 104, 125, 32, 113] := by rfl
+
+theorem exSwitch_dropped : dropped [112, 32] = false ∧ dropped [111, 110, 101] = false ∧ dropped [32] = false ∧
+    dropped [122] = false ∧ dropped [10] = true ∧ dropped [32, 113] = false := by
+  refine ⟨?_, ?_, ?_, ?_, ?_, ?_⟩ <;>
+    simp [dropped, allSpaceWithNewline, allSpaceLoop, decodeRune, byteAt, Lex.isSpaceEOL, Lex.isSpace, Lex.isEndOfLine]
+
+/-- accepted, with exactly this tree (as the real parser: `build/vh worker`, op `parsesrc`) -/
+theorem exSwitch_spec (pf : Bytes → Option UInt64) :
+    parseSource pf
+      [112, 32, 123, 115, 119, 105, 116, 99, 104, 32, 36, 97, 125, 123, 99, 97, 115, 101, 32, 49, 125, 111, 110, 101, 123, 36,
+       120, 125, 123, 99, 97, 115, 101, 32, 36, 98, 125, 32, 123, 100, 101, 102, 97, 117, 108, 116, 125, 123, 105, 102, 32,
+       48, 125, 122, 123, 47, 105, 102, 125, 10, 123, 47, 115, 119, 105, 116, 99, 104, 125, 32, 113] =
+    .ok [.rawText 2 [112, 32],
+      .switch 9 (.dataRef 12 [97] .nil)
+        (.cons (.switchCase 18 [.int 20 1]
+          (.list 24 (.cons (.rawText 24 [111, 110, 101]) (.cons (.print 27 (.dataRef 27 [120] .nil) []) .nil))))
+        (.cons (.switchCase 33 [.dataRef 36 [98] .nil] (.list 38 (.cons (.rawText 38 [32]) .nil)))
+        (.cons (.switchCase 46 []
+          (.list 48 (.cons (.ifc 50 (.cons (.ifCond 50 (some (.int 52 0)) (.list 54 (.cons (.rawText 54 [122]) .nil))) .nil)) .nil)))
+          .nil))),
+      .rawText 71 [32, 113]] := by
+  have h := (block_source_spec pf exSwitch exSwitch_wf).2
+  rw [exSwitch_src] at h
+  rw [h]
+  obtain ⟨d1, d2, d3, d4, d5, d6⟩ := exSwitch_dropped
+  have j1 : joinLines [112, 32] false false = [112, 32] := by rfl
+  have j2 : joinLines [111, 110, 101] false false = [111, 110, 101] := by rfl
+  have j3 : joinLines [32] false false = [32] := by rfl
+  have j4 : joinLines [122] false false = [122] := by rfl
+  have j6 : joinLines [32, 113] false false = [32, 113] := by rfl
+  simp [nodesOf, exSwitch, nodesBlk, nodeCmd, condsTail, caseNodes, textNL, exprOf, natVal, headPos, itemsSegs, closeBlk,
+    initBlk, segsCmd, segsTail, segsCases, Blk.trail, IfTail.head, Cases.head, textItem, lenS, lenBlk, srcSegs, Tag.src,
+    srcEs, Elem.src, SExp.elem, closeBytes, ifTag, switchTag, caseTag, defaultTag, printTag, Tag.items, itemsEs,
+    Elem.items, NodeList.append, NodeList.toList, kIf, kSwitch, kCase, kDefault,
+    d1, d2, d3, d4, d5, d6, j1, j2, j3, j4, j6]
 
 end SoyVerif.Props.C05c
